@@ -408,6 +408,8 @@ def http_field_diffs(rec, ignore_error_body=True):
     if 'acc' in ih or 'acc' in mh:
         if ih.get('acc') != mh.get('acc'):
             t.append('snap.accept')
+    if 'txns' in ih and 'txns' in mh and ih['txns'] != mh['txns']:
+        t.append('calls.txns')
     return t
 
 def _fields(d):
